@@ -261,6 +261,9 @@ func (p *boundsProver) nonNegative(v ssa.Value, at ssa.Instruction, depth int) (
 			}
 		}
 	}
+	if at != nil && p.dbmNonNegative(v0, at) {
+		return true, "difference bounds (definitions, loop induction and dominating tests give 0 <= i)"
+	}
 	return false, ""
 }
 
@@ -474,6 +477,9 @@ func (p *boundsProver) upperBounded(v, base ssa.Value, at ssa.Instruction, stric
 				}
 			}
 		}
+	}
+	if p.dbmBelowLen(v0, base, at, strict) {
+		return true, "difference bounds (definitions, loop induction and dominating tests bound i by len)"
 	}
 	return false, ""
 }
@@ -717,6 +723,9 @@ func (p *boundsProver) loLeqHi(lo, hi ssa.Value, at ssa.Instruction) (bool, stri
 		if ok2, _ := p.nonNegative(bo.Y, at, 3); ok2 {
 			return true, "high = low + non-negative"
 		}
+	}
+	if p.dbmLeq(lo, hi, at) {
+		return true, "difference bounds give low <= high"
 	}
 	return false, ""
 }
